@@ -1,5 +1,6 @@
 import QlibcModel.Props.C01
 #print axioms Qlibc.Props.C01.default_cmp_ok
+#print axioms Qlibc.Props.C01.harness_cmps_ok
 #print axioms Qlibc.Props.C01.init_refines
 #print axioms Qlibc.Props.C01.put_refines
 #print axioms Qlibc.Props.C01.get_refines
